@@ -111,7 +111,12 @@ var jsFloats = []string{"0.5", "-1.25", "1e21", "1e-7", "3", "-0", "123456789.12
 // (for values that travel through `const` declarations of a schema).
 func DrawJSArgs(t *rapid.T, label string, noEmpty bool) []JSArg {
 	n := rapid.IntRange(0, 3).Draw(t, label+"n")
-	perm := rapid.Permutation(JSArgNames).Draw(t, label+"names")
+	// (rarely an argument is called _node: with a node present the injected value still wins, without one it is an
+	// ordinary argument)
+	perm := rapid.Permutation(append([]string{}, JSArgNames...)).Draw(t, label+"names")
+	if rapid.IntRange(0, 9).Draw(t, label+"nodeName") == 0 {
+		perm[0] = "_node"
+	}
 	args := make([]JSArg, 0, n)
 	for i := 0; i < n; i++ {
 		a := JSArg{Name: perm[i]}
